@@ -731,6 +731,18 @@ func parseValue(s string) mq.VerifValue {
 	panic("value")
 }
 
+// patbuf is a buffer of n bytes 0xaa; nil for n = 0 (as _LEN)
+func patbuf(n int) []byte {
+	if n == 0 {
+		return nil
+	}
+	b := make([]byte, n)
+	for j := range b {
+		b[j] = 0xaa
+	}
+	return b
+}
+
 func valueS(k string, v mq.VerifValue) string {
 	switch k {
 	case "bool":
@@ -812,6 +824,43 @@ func runCase(line string) (res string) {
 			return fmt.Sprintf("%s w=%d ret=%d", hexs(buf), w, ret)
 		}
 		return fmt.Sprintf("%s w=%d", hexs(buf), w)
+	case "WFILL", "WFILLP":
+		// fill / fillProp of a wire type on a patterned buffer of any length at any offset
+		k := wireKinds[f[1]]
+		v := parseValue(f[2])
+		a := 3
+		var id uint64
+		if f[0] == "WFILLP" {
+			id, _ = strconv.ParseUint(f[3], 10, 8)
+			a = 4
+		}
+		bl, _ := strconv.Atoi(f[a])
+		i, _ := strconv.Atoi(f[a+1])
+		buf := patbuf(bl)
+		ret := mq.VerifWireFillInto(k, v, buf, i, f[0] == "WFILLP", mq.Ident(id))
+		return fmt.Sprintf("%s ret=%d", hexs(buf), ret)
+	case "UPFILL":
+		v := mq.VerifValue{K: unhex(f[1]), S: unhex(f[2])}
+		bl, _ := strconv.Atoi(f[4])
+		i, _ := strconv.Atoi(f[5])
+		buf := patbuf(bl)
+		ret := mq.VerifWireFillInto(mq.VerifUserProp, v, buf, i, f[3] == "1", mq.UserProperty)
+		return fmt.Sprintf("%s ret=%d", hexs(buf), ret)
+	case "PFILL":
+		// the positional encoder of a packet on a patterned buffer
+		k, _ := strconv.Atoi(f[1])
+		bl, _ := strconv.Atoi(f[2])
+		i, _ := strconv.Atoi(f[3])
+		p := newPacket(k)
+		for _, c := range f[4:] {
+			applyCall(p, c)
+		}
+		buf := patbuf(bl)
+		ret, ok := mq.VerifPacketFill(p, buf, i)
+		if !ok {
+			return "NOFILL"
+		}
+		return fmt.Sprintf("%s ret=%d", hexs(buf), ret)
 	case "R":
 		max, _ := strconv.Atoi(f[1])
 		return readAll(max, parseScript(f[2]))
